@@ -217,6 +217,25 @@ MORE7 = {
 }
 for k, v in MORE7.items():
     CLAIMED[k]["text"] += v
+# eighth round
+MORE8 = {
+ "C01": " Merge programs that work in place on their inputs, the three input objects checked after the merge, merges with an input object that cannot be had (D84).",
+ "C02": " The real-adapter campaign also runs under C02 with batch answers whose objects carry members that are the client's business (path, name, missing); what DoTransfer does to the file system is a regenerated fact.",
+ "C03": " Locks of another user on the scenario servers with lock verification not configured; the exclusion list of uploadForRefUpdates is a regenerated fact (gen_upload_exclusion).",
+ "C04": " After a pull the object of every selected path is in local storage whatever the working-tree file holds; pull / checkout also run from a sub-directory with a staged deletion (D82); a server may answer one download without an action (D83).",
+ "C09": " The rename into place is a regenerated fact (one rename, nothing moved aside).",
+ "C10": " One request object submitted up to three times (campaign c10Resend) over redirect-then-500 graphs.",
+ "C12": " Nested annotated tags with the inner ref kept or deleted (D78; model TagRw with corr.C12.tagchain); directories named like an exclude pattern.",
+ "C13": " An attributes file of more than 1 KiB (variant padded); the defaults of the two checks are a regenerated fact.",
+ "C14": " Campaign c14SkipEquivalence: skip-smudge / fetchexclude / fetchinclude with the objects local, one-shot smudge vs the filter with and without can-delay.",
+ "C15": " Model AuthLoop (an API request is submitted at most defaultMaxAuthAttempts + 1 times; exact tie on single-round cases); campaign c15RetryAfter on the parsing of Retry-After (D86).",
+ "C16": " Merges (--squash, --no-ff, --ff-only) of a branch that changed a lockable file, with a write-bit check (post-merge hook); a lockable path below a nested attributes file (D80).",
+ "C18": " A front end that answers every POST and PUT with 307: the request arriving at the new location is the one judged; every kind of response corruption in turn, empty lock ids (D81).",
+ "C19": " Sequences run inside a sub-directory (rooted vs unrooted spellings, D79); hidden names whose second character is escaped (D85); rooted and unrooted lines side by side (D77).",
+ "C20": " Attribute.Install's calls are a regenerated fact (it only normalises and sets keys).",
+}
+for k, v in MORE8.items():
+    CLAIMED[k]["text"] += v
 ALL = ["C%02d" % i for i in range(1, 21)]
 m = {
  "version": 1,
